@@ -65,8 +65,17 @@ def shard_pm2(seed, n):
         if i == 4:
             # every distance the 8 KiB window permits, once each
             cmds = [('B', (k * 61 + (k >> 8)) & 0xff) for k in range(8300)] + [('C', d, 3 + (d % 4)) for d in range(1, 8193)]
+        if i in range(9, 17):
+            # the entry count of the code table at its thresholds (8/9: bytes only and the 2-byte copy, 10: the first code that looks
+            # up an offset, 29: all meaningful codes, 30/31: the count field's full width), forced for every table of the stream;
+            # streams of bytes and short copies, so that every one of these counts is a legal spelling
+            pmarc.FORCE_NC = (8, 9, 10, 11, 12, 29, 30, 31)[i - 9]
+            cmds = []
+            for _ in range(rnd.choice([30, 1500, 5000])):
+                cmds.append(('B', rnd.randrange(256)) if rnd.random() < 0.8 or not cmds else ('C', 1, 2))
         exp = pmarc.expand_pm(cmds)
         stream, marks = pmarc.pm2_serialise(cmds, rnd, feat, omit_final_reread=(end_on is not None and seed % 3 != 0))
+        pmarc.FORCE_NC = None
         c = dech.Case('-pm2-', stream, len(exp), sched=[rnd.choice([1, 100, 256, 5000])] if rnd.random() < 0.3 else [], in_chunk=rnd.choice([0, 0, 1, 3, 7]),
                       meta={'tag': 'mtf-directed' if directed else 'every-distance' if i == 4 else 'random', 'features': sorted(feat)})
         cases.append(c)
